@@ -16,6 +16,31 @@ Next == UNCHANGED i
 \* some range of S is a prefix of ip (33 membership tests instead of a scan of S)
 Cover(S, ip) == \E l \in 0..Len(ip) : SubSeq(ip, 1, l) \in S
 
+\* Conformance to the lock protocol (implementation-shaped, not a verdict): "lp" events are emitted inside the
+\* critical sections, so their order is the order in which the filter's lock-protected state was read and
+\* written.  LinFold replays the updates at their lp and predicts every lookup at its lp; a lookup that
+\* neither equals the prediction nor is explained by the lock-free match-all flag is reported as DRIFT.
+RECURSIVE LinFold(_, _, _, _, _, _)
+\* lin: set of ranges by lp order; cur: writer -> its operation in flight; want: reader -> predicted result;
+\* flagMaybe: reader -> the match-all flag was possibly set at some instant of its call
+LinFold(evs, k, lin, cur, want, flagMaybe) ==
+  IF k > Len(evs) THEN 0
+  ELSE LET e == evs[k] IN
+    CASE e.k = "wb" -> LinFold(evs, k + 1, lin, (e.p :> [op |-> e.op, c |-> e.c]) @@ cur, want,
+                               IF e.c = <<>> THEN [r \in DOMAIN flagMaybe |-> TRUE] ELSE flagMaybe)
+      [] e.k = "lp" /\ e.p \in DOMAIN cur /\ e.p >= 99 ->
+           LinFold(evs, k + 1, IF cur[e.p].op = "add" THEN lin \cup {cur[e.p].c} ELSE lin \ {cur[e.p].c}, cur, want, flagMaybe)
+      [] e.k = "rb" -> LinFold(evs, k + 1, lin, cur, (e.p :> [ip |-> e.ip, res |-> "none"]) @@ want,
+                               (e.p :> (<<>> \in lin \/ \E w \in DOMAIN cur : cur[w].c = <<>>)) @@ flagMaybe)
+      [] e.k = "lp" /\ e.p \in DOMAIN want /\ e.p < 99 ->
+           LinFold(evs, k + 1, lin, cur, [want EXCEPT ![e.p].res = IF Cover(lin \ {<<>>}, want[e.p].ip) THEN "t" ELSE "f"], flagMaybe)
+      [] e.k = "re" /\ e.p \in DOMAIN want ->
+           IF want[e.p].res = "none" THEN LinFold(evs, k + 1, lin, cur, want, flagMaybe)      \* answered by the flag, no lock taken
+           ELSE IF (want[e.p].res = "t") = e.res \/ flagMaybe[e.p] THEN LinFold(evs, k + 1, lin, cur, want, flagMaybe)
+           ELSE k
+      [] e.k = "bulk" -> LinFold(evs, k + 1, lin \cup {e.cs[j] : j \in 1..Len(e.cs)}, cur, want, flagMaybe)
+      [] OTHER -> LinFold(evs, k + 1, lin, cur, want, flagMaybe)
+
 RECURSIVE Fold(_, _, _, _, _, _, _)
 \* act = set of readers in flight; stable / poss: functions reader -> set of ranges
 Fold(evs, k, def, pos, act, stable, poss) ==
@@ -34,6 +59,10 @@ Fold(evs, k, def, pos, act, stable, poss) ==
            ELSE IF e.res /\ ~Cover(poss[e.p], e.ip) THEN k
            ELSE Fold(evs, k + 1, def, pos, act \ {e.p}, stable, poss)
       [] e.k = "crash" -> k                 \* a goroutine of the run crashed inside the filter
+      [] e.k = "bulk" ->                    \* ranges added one after the other before anything else runs
+           LET S == {e.cs[j] : j \in 1..Len(e.cs)} IN Fold(evs, k + 1, def \cup S, pos \cup S, act, stable, poss)
       [] OTHER -> Fold(evs, k + 1, def, pos, act, stable, poss)
-JudgeOK == LET r == Fold(Cases[i].evs, 1, {}, {}, {}, <<>>, <<>>) IN r = 0 \/ PrintT(<<"BAD", i, r>>)
+JudgeOK == LET r == Fold(Cases[i].evs, 1, {}, {}, {}, <<>>, <<>>)
+               d == LinFold(Cases[i].evs, 1, {}, <<>>, <<>>, <<>>)
+           IN (r = 0 \/ PrintT(<<"BAD", i, r>>)) /\ (d = 0 \/ PrintT(<<"DRIFT", i, d>>))
 =============================================================================
